@@ -270,12 +270,13 @@ fn rng_pick(rng: &mut Rng, xs: &[&str]) -> String {
 const PROBE: &str = "(list o0 o1 o2 o3 o4 o5 o6 o7 o8 t)";
 
 fn identity_probe(rng: &mut Rng) -> String {
+    // Only identities that must hold are probed: the same element or tail reached twice is the same
+    // object. Whether two *distinct* pairs with identical components are eq? is not asked: the pinned
+    // suite fixes (eq? (cons foo bar) (cons foo bar)) => #t, so a negative answer cannot be demanded.
     let a = rng.usize(POOL);
-    let b = rng.usize(POOL);
     format!(
-        "(list (if (and (vector? o{a}) (> (vector-length o{a}) 0)) (list (eq? (vector-ref o{a} 0) o{b}) (eqv? (vector-ref o{a} 0) (vector-ref o{a} 0))) 'nv) (if (pair? o{a}) (list (eq? (car o{a}) o{b}) (eq? (cdr o{a}) o{b}) (eq? (list-tail o{a} 1) (cdr o{a}))) 'np) (if (pair? t) (eq? (car t) o{b}) 'nt))",
-        a = a,
-        b = b
+        "(list (if (and (vector? o{a}) (> (vector-length o{a}) 0)) (list (eq? (vector-ref o{a} 0) (vector-ref o{a} 0)) (eqv? (vector-ref o{a} 0) (vector-ref o{a} 0))) 'nv) (if (pair? o{a}) (list (eq? (car o{a}) (car o{a})) (eq? (cdr o{a}) (cdr o{a})) (eq? (list-tail o{a} 1) (cdr o{a}))) 'np) (eq? o{a} o{a}))",
+        a = a
     )
 }
 
